@@ -113,9 +113,9 @@ func coqText(s string) string {
 // file; the dictionary definitions ride along behind the import.
 func dictImports() string {
 	if len(dictDefs) == 0 {
-		return "model.Editors"
+		return "model.Editors model.EditorKeys"
 	}
-	return "model.Editors.\nLocal Open Scope Z_scope.\n" + strings.Join(dictDefs, ".\n")
+	return "model.Editors model.EditorKeys.\nLocal Open Scope Z_scope.\n" + strings.Join(dictDefs, ".\n")
 }
 
 func coqCls(cs []vaxis.Character) string {
@@ -254,25 +254,94 @@ type tfOp struct {
 	i       uint
 	variant int
 	dv      derive
+	// extra modifier bits ORed into the key event (lock state reported by the kitty
+	// protocol, Shift, Meta, Hyper): see textMods / lockMods
+	mods vaxis.ModifierMask
+}
+
+// Modifier bits a key that carries Text can arrive with: Shift, the two lock bits (the
+// kitty keyboard protocol reports them while Caps Lock / Num Lock is on), Meta and Hyper.
+// Neither widget treats any of them as a chord: the Text is typed.  All 32 subsets.
+func textMods() []vaxis.ModifierMask {
+	bits := []vaxis.ModifierMask{vaxis.ModShift, vaxis.ModCapsLock, vaxis.ModNumLock, vaxis.ModMeta, vaxis.ModHyper}
+	var out []vaxis.ModifierMask
+	for m := 0; m < 1<<len(bits); m++ {
+		var mm vaxis.ModifierMask
+		for i, b := range bits {
+			if m&(1<<i) != 0 {
+				mm |= b
+			}
+		}
+		out = append(out, mm)
+	}
+	return out
+}
+
+// lock state on a navigation / deletion / chord key
+var lockMods = []vaxis.ModifierMask{vaxis.ModCapsLock, vaxis.ModNumLock, vaxis.ModCapsLock | vaxis.ModNumLock}
+
+// further bits on a bound key: lock state, or a bit that makes it another (unbound) key
+var navMods = append(append([]vaxis.ModifierMask{}, lockMods...), vaxis.ModCapsLock, vaxis.ModNumLock, vaxis.ModShift, vaxis.ModMeta,
+	vaxis.ModHyper|vaxis.ModCapsLock, vaxis.ModShift|vaxis.ModNumLock)
+
+func (g *gen) randTextMods() vaxis.ModifierMask {
+	tm := textMods()
+	return tm[g.cfg.Rand.Intn(len(tm))]
+}
+
+func modSuffix(m vaxis.ModifierMask) string {
+	if m == 0 {
+		return ""
+	}
+	var names []string
+	for _, b := range []struct {
+		bit  vaxis.ModifierMask
+		name string
+	}{{vaxis.ModShift, "Shift"}, {vaxis.ModAlt, "Alt"}, {vaxis.ModCtrl, "Ctrl"}, {vaxis.ModSuper, "Super"}, {vaxis.ModHyper, "Hyper"},
+		{vaxis.ModMeta, "Meta"}, {vaxis.ModCapsLock, "CapsLock"}, {vaxis.ModNumLock, "NumLock"}} {
+		if m&b.bit != 0 {
+			names = append(names, b.name)
+		}
+	}
+	return "+mods(" + strings.Join(names, "|") + ")"
+}
+
+func withMods(e vaxis.Event, m vaxis.ModifierMask) vaxis.Event {
+	if k, ok := e.(vaxis.Key); ok {
+		k.Modifiers |= m
+		return k
+	}
+	return e
 }
 
 func (o tfOp) String() string {
 	switch o.kind {
 	case "text", "insertapi", "setvalue":
-		return fmt.Sprintf("%s(%q)%s", o.kind, o.s, o.dv)
+		return fmt.Sprintf("%s(%q)%s%s", o.kind, o.s, o.dv, modSuffix(o.mods))
 	case "cursortoapi":
 		return fmt.Sprintf("cursorto(%d)", o.i)
 	}
 	if o.variant != 0 {
-		return fmt.Sprintf("%s/%d", o.kind, o.variant)
+		return fmt.Sprintf("%s/%d%s", o.kind, o.variant, modSuffix(o.mods))
 	}
-	return o.kind
+	return o.kind + modSuffix(o.mods)
 }
 
 func (o tfOp) coq() string {
 	switch o.kind {
 	case "text":
+		if o.mods != 0 { // the model decides from the mask (model/EditorKeys.v)
+			return "(tf_typed " + hx.Z(int64(o.mods)) + " " + coqText(o.s) + ")"
+		}
 		return "(TText " + coqText(o.s) + ")"
+	case "home", "end", "right", "left", "delete", "backspace", "kill", "enter":
+		if o.mods != 0 {
+			o2 := o
+			o2.mods = 0
+			return "(tf_bound " + hx.Z(int64(o.mods)) + " " + strings.TrimPrefix(strings.TrimSuffix(o2.coq(), ")"), "(TKey ") + ")"
+		}
+	}
+	switch o.kind {
 	case "home":
 		return "(TKey TkHome)"
 	case "end":
@@ -326,7 +395,7 @@ func firstRune(s string) rune {
 }
 
 func (o tfOp) apply(tf *textfield.TextField) {
-	ev := func(e vaxis.Event) { tf.HandleEvent(e, vxfw.TargetPhase) }
+	ev := func(e vaxis.Event) { tf.HandleEvent(withMods(e, o.mods), vxfw.TargetPhase) }
 	switch o.kind {
 	case "text":
 		k := vaxis.Key{Keycode: firstRune(o.s), Text: o.s}
@@ -462,7 +531,29 @@ func (g *gen) runTF(s *hx.Stream, ops []tfOp, W int, stable bool, tags ...string
 
 var tfWidths = []int{0, 1, 3, 8, 30, 200, 200, 200}
 
+// a random operation; a typed text arrives with a random subset of Shift / CapsLock / NumLock /
+// Meta / Hyper one time in three, a bound key with lock state one time in five
 func (g *gen) randTFOp(alpha []string, curLen int) tfOp {
+	o := g.randTFOp0(alpha, curLen)
+	return g.tfDecorate(o)
+}
+
+func (g *gen) tfDecorate(o tfOp) tfOp {
+	r := g.cfg.Rand
+	switch o.kind {
+	case "text":
+		if r.Intn(3) == 0 {
+			o.mods = g.randTextMods()
+		}
+	case "home", "end", "right", "left", "delete", "backspace", "kill", "enter":
+		if r.Intn(5) == 0 {
+			o.mods = navMods[r.Intn(len(navMods))]
+		}
+	}
+	return o
+}
+
+func (g *gen) randTFOp0(alpha []string, curLen int) tfOp {
 	r := g.cfg.Rand
 	x := r.Intn(100)
 	v2 := r.Intn(2)
@@ -585,6 +676,37 @@ func (g *gen) tfDerivedDirected(s *hx.Stream) {
 	}
 }
 
+// Directed: modifier bits on key events.  A key with Text typed into the middle / at the
+// start / at the end of a line with EVERY subset of Shift, CapsLock, NumLock, Meta, Hyper
+// (press and repeat) must be inserted once at the cursor; every bound key keeps its meaning
+// under Caps Lock / Num Lock (Key.Matches strips the lock bits).
+func (g *gen) tfModsDirected(s *hx.Stream) {
+	typed := []string{"C", "\u754c", "e\u0301", "ab", "7"}
+	k := 0
+	for _, x := range derivedTexts[:2] {
+		for _, mot := range [][]tfOp{{}, {{kind: "left"}}, {{kind: "home"}}} {
+			for _, m := range textMods() {
+				ops := append([]tfOp{{kind: "insertapi", s: x}}, mot...)
+				ops = append(ops, tfOp{kind: "text", s: typed[k%len(typed)], variant: k % 2, mods: m}, tfOp{kind: "text", s: "z"}, tfOp{kind: "end"})
+				k++
+				g.runTF(s, ops, 200, true, "tf-mods-directed")
+			}
+		}
+	}
+	for _, kind := range []string{"home", "end", "right", "left", "delete", "backspace", "kill", "enter"} {
+		for v := 0; v < 2; v++ {
+			if v == 1 && (kind == "kill" || kind == "enter") {
+				continue
+			}
+			for _, m := range append(append([]vaxis.ModifierMask{}, lockMods...), vaxis.ModShift, vaxis.ModMeta|vaxis.ModNumLock, vaxis.ModHyper) {
+				ops := []tfOp{{kind: "insertapi", s: derivedTexts[0]}, {kind: "cursortoapi", i: 2}, {kind: kind, variant: v, mods: m},
+					{kind: "text", s: "z", mods: m}, {kind: kind, variant: v, mods: m}}
+				g.runTF(s, ops, 200, true, "tf-mods-directed")
+			}
+		}
+	}
+}
+
 func (g *gen) tfStream() (*hx.Stream, *hx.Stream) {
 	s := hx.NewStream("textfield", "model.Editors", "tf_case", "c17_tf_mismatches", "c17_tf_violations")
 	s.ShardMax = 400
@@ -597,6 +719,7 @@ func (g *gen) tfStream() (*hx.Stream, *hx.Stream) {
 	g.runTF(s, []tfOp{{kind: "insertapi", s: "abc"}, {kind: "cursortoapi", i: 1}, {kind: "kill"}, {kind: "end"}, {kind: "text", s: "z"}, {kind: "cursortoapi", i: 9}}, 200, true, "tf-regress")
 	g.runTF(s, []tfOp{{kind: "text", s: "ab"}, {kind: "enter"}, {kind: "end"}, {kind: "text", s: "c"}}, 200, true, "tf-regress")
 	g.tfDerivedDirected(s)
+	g.tfModsDirected(s)
 	// bounded-exhaustive over a 12-operation alphabet from three starting contents
 	ex := []tfOp{{kind: "text", s: "b"}, {kind: "text", s: "\u754c"}, {kind: "text", s: "e\u0301"}, {kind: "left"}, {kind: "right", variant: 1},
 		{kind: "home"}, {kind: "end", variant: 1}, {kind: "delete"}, {kind: "backspace"}, {kind: "kill"}, {kind: "enter"}, {kind: "cursortoapi", i: 2}}
@@ -698,19 +821,20 @@ type tiOp struct {
 	w       int
 	variant int
 	dv      derive
+	mods    vaxis.ModifierMask // extra modifier bits ORed into the key event (see tfOp.mods)
 }
 
 func (o tiOp) String() string {
 	switch o.kind {
 	case "text", "modtext", "pastechunk", "setcontent":
-		return fmt.Sprintf("%s(%q)/%d%s", o.kind, o.s, o.variant, o.dv)
+		return fmt.Sprintf("%s(%q)/%d%s%s", o.kind, o.s, o.variant, o.dv, modSuffix(o.mods))
 	case "draw":
 		return fmt.Sprintf("draw(%d)", o.w)
 	}
 	if o.variant != 0 {
-		return fmt.Sprintf("%s/%d", o.kind, o.variant)
+		return fmt.Sprintf("%s/%d%s", o.kind, o.variant, modSuffix(o.mods))
 	}
-	return o.kind
+	return o.kind + modSuffix(o.mods)
 }
 
 var tiKeyCoq = map[string]string{"home": "IkHome", "end": "IkEnd", "right": "IkRight", "left": "IkLeft", "wordf": "IkWordF",
@@ -718,14 +842,23 @@ var tiKeyCoq = map[string]string{"home": "IkHome", "end": "IkEnd", "right": "IkR
 	"backspace": "IkBackspace", "killword": "IkKillWord"}
 
 func (o tiOp) coq() string {
+	// a key event with extra modifier bits: the real masks are shipped and the model decides
+	// what the key is (model/EditorKeys.v: ti_typed, ti_bound)
 	if k, ok := tiKeyCoq[o.kind]; ok {
+		if o.mods != 0 {
+			k0 := o.event0().(vaxis.Key)
+			return "(OEv (ti_bound " + hx.Z(int64(k0.Modifiers)) + " " + hx.Z(int64(o.mods)) + " " + hx.Bool(k0.Keycode >= 'a' && k0.Keycode <= 'z') + " " + k + "))"
+		}
 		return "(OEv (EKey " + k + "))"
 	}
 	switch o.kind {
 	case "text":
+		if o.mods != 0 {
+			return "(OEv (ti_typed " + hx.Z(int64(o.event().(vaxis.Key).Modifiers)) + " " + coqText(o.s) + "))"
+		}
 		return "(OEv (EDefault false " + coqText(o.s) + "))"
 	case "modtext":
-		return "(OEv (EDefault true " + coqText(o.s) + "))"
+		return "(OEv (ti_typed " + hx.Z(int64(o.event().(vaxis.Key).Modifiers)) + " " + coqText(o.s) + "))"
 	case "notext":
 		return "(OEv (EDefault false []))"
 	case "release":
@@ -744,7 +877,9 @@ func (o tiOp) coq() string {
 	panic("tiOp " + o.kind)
 }
 
-func (o tiOp) event() vaxis.Event {
+func (o tiOp) event() vaxis.Event { return withMods(o.event0(), o.mods) }
+
+func (o tiOp) event0() vaxis.Event {
 	switch o.kind {
 	case "text":
 		k := vaxis.Key{Keycode: firstRune(o.s), Text: o.s}
@@ -944,7 +1079,37 @@ func (g *gen) runTI(s *hx.Stream, prompt string, ops []tiOp, stable bool, tags .
 var tiWidths = []int{0, 1, 2, 3, 4, 5, 6, 7, 8, 9, 10, 12, 15, 20, 20, 30, 40, 80, 150}
 var tiPrompts = []string{"", "", "> ", "\u4e16:", "e\u0301 "}
 
+// random operations; a typed text arrives with a random subset of Shift / CapsLock / NumLock /
+// Meta / Hyper one time in three, a chord with Text with extra bits every other time, a bound
+// key with lock state one time in five
 func (g *gen) randTIOp(alpha []string, unstable bool) []tiOp {
+	ops := g.randTIOp0(alpha, unstable)
+	for i := range ops {
+		ops[i] = g.tiDecorate(ops[i])
+	}
+	return ops
+}
+
+func (g *gen) tiDecorate(o tiOp) tiOp {
+	r := g.cfg.Rand
+	switch o.kind {
+	case "text":
+		if r.Intn(3) == 0 {
+			o.mods = g.randTextMods()
+		}
+	case "modtext":
+		if r.Intn(2) == 0 {
+			o.mods = g.randTextMods()
+		}
+	default:
+		if _, ok := tiKeyCoq[o.kind]; ok && r.Intn(5) == 0 {
+			o.mods = navMods[r.Intn(len(navMods))]
+		}
+	}
+	return o
+}
+
+func (g *gen) randTIOp0(alpha []string, unstable bool) []tiOp {
 	r := g.cfg.Rand
 	x := r.Intn(100)
 	v2 := r.Intn(2)
@@ -1094,6 +1259,47 @@ func (g *gen) tiDerivedDirected(s *hx.Stream) {
 	}
 }
 
+// Directed: modifier bits on key events.  A key with Text typed into the middle / at the
+// start / at the end of a line with EVERY subset of Shift, CapsLock, NumLock, Meta, Hyper
+// (press and repeat) is inserted once at the cursor (Update's default branch refuses only
+// Ctrl / Alt / Super); a chord with Text stays a chord whatever else is set; every bound key
+// under Num Lock keeps its meaning, under Caps Lock the named keys do and the Ctrl/Alt+letter
+// bindings do nothing; Shift, Meta or Hyper on a bound key make it another, unbound key (model/EditorKeys.v: ti_bound).
+func (g *gen) tiModsDirected(s *hx.Stream) {
+	typed := []string{"C", "\u754c", "e\u0301", "ab", "7"}
+	k := 0
+	for _, x := range derivedTexts[:2] {
+		for mi, mot := range [][]tiOp{{}, {{kind: "left"}}, {{kind: "home"}}} {
+			for _, m := range textMods() {
+				ops := append([]tiOp{{kind: "setcontent", s: x}}, mot...)
+				ops = append(ops, tiOp{kind: "text", s: typed[k%len(typed)], variant: k % 2, mods: m}, tiOp{kind: "text", s: "z"}, tiOp{kind: "draw", w: 40})
+				k++
+				g.runTI(s, []string{"", "> "}[mi%2], ops, true, "ti-mods-directed")
+			}
+		}
+	}
+	extra := append([]vaxis.ModifierMask{vaxis.ModMeta, vaxis.ModHyper | vaxis.ModCapsLock, vaxis.ModShift | vaxis.ModNumLock}, lockMods...)
+	for v := 0; v < 4; v++ {
+		for _, m := range extra {
+			ops := []tiOp{{kind: "setcontent", s: derivedTexts[1]}, {kind: "left"}, {kind: "modtext", s: "q", variant: v, mods: m},
+				{kind: "text", s: "z", mods: m}, {kind: "draw", w: 40}}
+			g.runTI(s, "", ops, true, "ti-mods-directed")
+		}
+	}
+	for _, kind := range []string{"home", "end", "right", "left", "wordf", "wordb", "delete", "backspace", "killend", "killstart", "killword"} {
+		for v := 0; v < 2; v++ {
+			if v == 1 && (kind == "killend" || kind == "killstart" || kind == "killword") {
+				continue
+			}
+			for _, m := range append(append([]vaxis.ModifierMask{}, lockMods...), vaxis.ModShift, vaxis.ModMeta|vaxis.ModNumLock, vaxis.ModHyper) {
+				ops := []tiOp{{kind: "setcontent", s: derivedTexts[1]}, {kind: "left"}, {kind: "left"}, {kind: kind, variant: v, mods: m},
+					{kind: "text", s: "z", mods: m}, {kind: kind, variant: v, mods: m}, {kind: "draw", w: 40}}
+				g.runTI(s, "", ops, true, "ti-mods-directed")
+			}
+		}
+	}
+}
+
 // exactly n clusters of the alphabet
 func (g *gen) textN(alpha []string, n int) string {
 	var b strings.Builder
@@ -1236,6 +1442,7 @@ func (g *gen) tiStream() (*hx.Stream, *hx.Stream) {
 	g.runTI(s, "", []tiOp{{kind: "setcontent", s: "ab \u4e16\u754c-cd  e\u0301f"}, {kind: "wordb"}, {kind: "wordb"}, {kind: "wordb"}, {kind: "wordb"}, {kind: "wordb"},
 		{kind: "wordf"}, {kind: "wordf"}, {kind: "wordf"}, {kind: "wordf"}, {kind: "killword"}, {kind: "killword"}, {kind: "killword"}}, true, "ti-regress")
 	g.tiDerivedDirected(s)
+	g.tiModsDirected(s)
 	// directed frame histories: a line wider than the window is drawn (the view scrolls), the
 	// cursor is rewound / the field emptied in every way the widget offers, that state is drawn
 	// or not, k graphemes arrive with no frame in between in every way the widget offers, and
@@ -1391,6 +1598,8 @@ func main() {
 		"programmatic edits and typed / pasted texts whose argument is derived from the text the widget holds at that moment (the same text, a prefix, a suffix, the text extended / prepended / doubled, "+
 		"the same line in the other normalisation form, another last cluster; from the current text or from the last non-empty one after Reset / Enter / emptying the field) after cursor motions and mid-line deletions, "+
 		"for SetContent, InsertStringAtCursor, key events and bracketed pastes on both widgets (directed over 5 lines x 9 motions, and inside every random history), "+
+		"modifier bits on key events for both widgets: keys with Text under every subset of Shift / CapsLock / NumLock / Meta / Hyper (all typed), chords with Text plus such bits (textinput: not typed), "+
+		"every bound key under Caps Lock / Num Lock (directed at three cursor positions of two lines, and inside every random history), "+
 		"and histories over a NOT boundary-stable alphabet (model-vs-code only); "+
 		"non-trivial = a deletion/word operation/paste that changed the text or cursor, an insertion before the end (TextField), a derived SetContent with the cursor off the end, or a Draw that scrolled",
 		streams, extra, g.direct)
